@@ -35,10 +35,15 @@ def run_kani_units(pid, tier, units, seed, ev, outcome):
             h = u["harness"]
             res = results.get(h)
             status, tags, notes = K.classify(res, must_cover=u.get("must_cover", ()))
+            tags, other = props.split_scope(pid, h, tags)
+            if other:
+                notes = list(notes) + ["failed obligations of other properties (not counted here): " + ",".join(other)]
+                if status == "fail" and not tags:
+                    status = "pass"
             rec = {"engine": "K", "unit": h, "status": status, "what": u.get("what", ""), "bounds": u.get("bounds", ""),
                    "checks": res["checks"] if res else 0, "discharged": res["success"] + res["unreachable"] if res else 0,
                    "covers": res["covers"] if res else {}, "solver_time_s": res["time_s"] if res else None,
-                   "notes": notes, "failed_tags": tags}
+                   "notes": notes, "failed_tags": tags, "out_of_scope_failed": other}
             ev["units"].append(rec)
             if status == "pass":
                 continue
